@@ -1,2 +1,89 @@
-(** placeholder while the proofs are written *)
-From SV Require Import Model.Replication.
+(** C10 - at most one transaction is confirmed per partition sequence (across all nodes); the confirmed prefixes of
+    any two replicas agree event for event.
+
+    Model: Model/Replication.v - a transition system over ANY number of nodes (a node is an [N]; the partition's
+    replica set [c_reps] and the replication factor [c_rf] are parameters), one step per [action]: a membership view
+    set to anything, a client write at any replica that believes it is the leader, delivery of any sent message (again),
+    the coordinator's confirmation steps, time-outs, the catch-up timer, expiry of buffered writes, the watermark
+    catching up, crash + restart.  [g_run cfg acts] is the state after the action list [acts] from the empty cluster.
+    Every theorem quantifies over ALL action lists (proof: an invariant, Proofs/ReplInv.v, preserved by every action,
+    Proofs/ReplSteps.v) - no bound on nodes, messages, or steps.
+
+    [c_cufix cfg = true] selects the code as it is after `fix:` 28b51ee; [C10_orig_catchup_refuted] shows what the code
+    before it did.  Hypothesis [length c_reps <= c_rf]: the partition has at most replication-factor replicas
+    (topology: min(rf, node count)).  q = c_q cfg = rf/2 + 1. *)
+From Coq Require Import NArith List Bool.
+From SV Require Import Model.Replication Proofs.ReplLog Proofs.ReplExt Proofs.ReplInv Proofs.ReplSteps Proofs.ReplicationProofs.
+Import ListNotations.
+Open Scope N_scope.
+
+(* (i) a node's log only grows: every entry keeps its transaction, sequence, size; a quorum count is never lost *)
+Theorem C10_log_stable : forall cfg, c_cufix cfg = true -> forall acts acts' n e,
+  In e (ns_log (g_nodes (g_run cfg acts) n)) ->
+  exists e', In e' (ns_log (g_nodes (g_run cfg (acts ++ acts')) n)) /\ ent_same e e' /\
+             (c_q cfg <= en_cnt e -> c_q cfg <= en_cnt e').
+Proof. exact stable. Qed.
+
+(* on one node a sequence belongs to one entry *)
+Theorem C10_one_entry_per_sequence : forall cfg, c_cufix cfg = true -> forall acts n e1 e2 x,
+  In e1 (ns_log (g_nodes (g_run cfg acts) n)) -> In e2 (ns_log (g_nodes (g_run cfg acts) n)) ->
+  covers e1 x = true -> covers e2 x = true -> e1 = e2.
+Proof. exact one_entry_per_sequence. Qed.
+
+(* (ii) a quorum count is on disk only for a transaction that at least q replicas store whole ... *)
+Theorem C10_quorum_evidence : forall cfg, c_cufix cfg = true -> forall acts n e,
+  In e (ns_log (g_nodes (g_run cfg acts) n)) -> c_q cfg <= en_cnt e ->
+  c_q cfg <= N.of_nat (length (holders cfg (g_run cfg acts) (en_tx e))).
+Proof. exact quorum_evidence. Qed.
+
+(* ... and every copy of a transaction, on every node, lies at the sequences its one coordinator assigned *)
+Theorem C10_assigned_sequence : forall cfg, c_cufix cfg = true -> forall acts n e,
+  In e (ns_log (g_nodes (g_run cfg acts) n)) ->
+  exists c s k, orig_of (g_orig (g_run cfg acts)) (en_tx e) = Some (c, s, k) /\
+                en_first e = s + en_off e /\ en_off e + en_nev e = k.
+Proof. exact entry_origin. Qed.
+
+(* hence: two entries anywhere in the cluster that both carry a quorum count and cover the same sequence hold the same
+   event of the same transaction there *)
+Theorem C10_agreement : forall cfg, c_cufix cfg = true -> N.of_nat (length (c_reps cfg)) <= c_rf cfg ->
+  forall acts n1 n2 e1 e2 x,
+  In e1 (ns_log (g_nodes (g_run cfg acts) n1)) -> In e2 (ns_log (g_nodes (g_run cfg acts) n2)) ->
+  c_q cfg <= en_cnt e1 -> c_q cfg <= en_cnt e2 -> covers e1 x = true -> covers e2 x = true ->
+  en_tx e1 = en_tx e2 /\ en_off e1 + (x - en_first e1) = en_off e2 + (x - en_first e2).
+Proof. exact agreement. Qed.
+
+(* the confirmed prefixes (below the watermark the disk justifies) of any two nodes agree event for event *)
+Theorem C10_confirmed_prefixes_agree : forall cfg, c_cufix cfg = true -> N.of_nat (length (c_reps cfg)) <= c_rf cfg ->
+  forall acts n1 n2 x,
+  x < wm_ideal (c_q cfg) (ns_log (g_nodes (g_run cfg acts) n1)) ->
+  x < wm_ideal (c_q cfg) (ns_log (g_nodes (g_run cfg acts) n2)) ->
+  exists e1 e2, In e1 (ns_log (g_nodes (g_run cfg acts) n1)) /\ In e2 (ns_log (g_nodes (g_run cfg acts) n2)) /\
+                covers e1 x = true /\ covers e2 x = true /\
+                en_tx e1 = en_tx e2 /\ en_off e1 + (x - en_first e1) = en_off e2 + (x - en_first e2).
+Proof. exact confirmed_prefixes_agree. Qed.
+
+(* the code BEFORE the fix (catch-up commits appended with ExpectedVersion::Any): a reachable state in which sequence 1
+   holds transaction 20 on node 0 and transaction 30 on node 1, both with the quorum count 2 of rf = 3.
+   Replayed on the real code: corpus/C10/orig_catchup.case (bin/check's monitor class two-confirmed). *)
+Theorem C10_orig_catchup_refuted :
+  exists acts e1 e2,
+    let cfg := mk_cfg 3 [0;1;2] 4 false in
+    let st := g_run cfg acts in
+    In e1 (ns_log (g_nodes st 0)) /\ In e2 (ns_log (g_nodes st 1)) /\
+    c_q cfg <= en_cnt e1 /\ c_q cfg <= en_cnt e2 /\ covers e1 1 = true /\ covers e2 1 = true /\ en_tx e1 <> en_tx e2.
+Proof. exact orig_catchup_refuted. Qed.
+
+(* non-vacuity: the hypotheses are satisfiable and quorum counts are reachable (rf = 3, three nodes): the same actions on the
+   repaired model leave node 0's log alone, and a run in which two nodes hold transaction 30 at sequence 1 with quorum counts *)
+Example C10_fixed_run_of_the_witness :
+  ns_log (g_nodes (g_run (mk_cfg 3 [0;1;2] 4 true) w_acts_catchup) 0) = [mk_ent 10 0 1 0 0].
+Proof. exact (proj1 fixed_catchup_run). Qed.
+Example C10_confirmed_on_two_nodes :
+  let st := g_run (mk_cfg 3 [0;1;2] 4 true) w_acts_hidden in
+  In (mk_ent 30 1 1 0 3) (ns_log (g_nodes st 0)) /\ In (mk_ent 30 1 1 0 2) (ns_log (g_nodes st 1)).
+Proof. destruct hidden_witness as (_ & A & _ & B & _). split; [exact A|exact B]. Qed.
+
+Print Assumptions C10_log_stable.
+Print Assumptions C10_agreement.
+Print Assumptions C10_confirmed_prefixes_agree.
+Print Assumptions C10_orig_catchup_refuted.
